@@ -3,6 +3,7 @@ package main
 import (
 	"encoding/json"
 	"fmt"
+	"os"
 	"sort"
 	"strings"
 	"sync"
@@ -382,6 +383,9 @@ func newC16Workers(hm hashMode, n int) (*c16Workers, error) {
 	for i := 0; i < n; i++ {
 		var set []*backend
 		for _, name := range backendNames {
+			if o := os.Getenv("KVSEQ_DEBUG_ONLY"); o != "" && o != name {
+				continue
+			}
 			b, err := newBackend(name, hm.Fn)
 			if err != nil {
 				return nil, err
